@@ -1,5 +1,5 @@
 """C05 — inline-storage promise: no dynamic allocation within N"""
-from vlib import veccheck as VC, vec as V
+from vlib import veccheck as VC, vec as V, setcheck as SC, sets as S
 from props import vcommon
 
 PROPERTY = 'C05'
@@ -20,6 +20,9 @@ def inline_pred(cfg, lines, obs):
             out.append((o.idx, 'operation within the inline capacity threw ' + o.res))
     return out
 
+def noalloc_pred(cfg, lines, obs):
+    return [(o.idx, f'SmallSet that never held more than N={cfg.n} elements made {o.allocs} allocator request(s)') for o in obs if o.allocs != 0][:1]
+
 def run(ctx):
     ok = ctx.lean(['AmcVerif.Props.C05'])
     n = 80 if ctx.tier == 'quick' else 600
@@ -38,7 +41,17 @@ def run(ctx):
     def nontrivial(cfg, lines, obs):
         return any(isinstance(c, tuple) and c[0] == cfg.n for o in obs for c in o.conts)
     VC.run(ctx, cfgs, gen, n, preds=(inline_pred, VC.oracle_pred, VC.fault_pred), nontrivial=nontrivial, label='C05 confined history')
-    ctx.assume('SmallSet part of the property is checked by the set harness (see C04/C05 in DESIGN.md)')
+    # SmallSet clause: the key domain has exactly N (equivalence classes of) keys, so no set of the pool can ever hold more than N
+    # elements; under every mix of insert / erase / copy / move / swap / merge / node transfer the counting allocator of the backing
+    # set must never be called
+    scfgs = [S.SetCfg('small', 4, 'std', cmp='less', pool=3), S.SetCfg('small', 5, 'flat', cmp='greater', pool=3)]
+    if ctx.tier == 'thorough':
+        scfgs += [S.SetCfg('small', 3, 'flat', cmp='less', cat='ntr', pool=3), S.SetCfg('small', 6, 'std', cmp='less', cat='ntr', pool=2)]
+    SC.run(ctx, scfgs, lambda rng, cfg, k: S.gen_history(rng, cfg, 50, dom=cfg.n, bulk_max=cfg.n), n // 2, preds=(SC.oracle_pred, noalloc_pred),
+           nontrivial=lambda cfg, lines, obs: any(c[0] == cfg.n for o in obs for c in o.conts) and any(l.startswith('mrg') for l in lines),
+           label='C05 SmallSet confined history')
 
 def replay(ctx, path):
+    if any('kind=set' in l for l in open(path) if l.startswith('cfg ')):
+        return SC.replay_file(path, preds=(SC.oracle_pred, noalloc_pred))
     return VC.replay_file(path, preds=(inline_pred, VC.oracle_pred, VC.fault_pred))
